@@ -21,6 +21,8 @@ for root, dirs, files in os.walk(os.path.join(repo, 'spyne')):
             continue
         t = {q: v for q, v in alpha.module_table(tree).items() if v}
         t['__functions__'] = sorted(q for q, _ in alpha.outer_functions(tree))
+        t['__params__'] = {q: alpha.param_list(fn)
+                           for q, fn in alpha.outer_functions(tree)}
         out[rel] = t
 txt = json.dumps(out, indent=0, sort_keys=True)
 if '--check' in sys.argv:
@@ -34,4 +36,4 @@ else:
     print('%d modules, %d functions, %d locals' % (
         len(out), sum(len(v['__functions__']) for v in out.values()),
         sum(len(x) for v in out.values() for k, x in v.items()
-            if k != '__functions__')))
+            if not k.startswith('__'))))
